@@ -227,6 +227,14 @@ func (e *Engine) report(kind, msg string, neg *Term) {
 	if kind == "assert" {
 		fn = e.entryName // assertions live in the harness: the entry names them
 	}
+	if kind == "hang" {
+		for _, f := range e.stack {
+			if !isHarnessFunc(f) && isUnderTest(f) {
+				fn = f.String()
+				break
+			}
+		}
+	}
 	key := kind + ":" + msg + "@" + fn
 	names, terms := e.activeExcuses(key)
 	notKnown := tTrue
